@@ -315,21 +315,7 @@ impl ClusterSys {
                     }
                 }
             }
-            loop {
-                let mut moved = false;
-                for i in 0..h {
-                    for j in 0..h {
-                        while w.next[i][j] < w.emitted[j].len() {
-                            let m = w.emitted[j][w.next[i][j]].clone();
-                            w.next[i][j] += 1;
-                            self.feed(w, i, &m);
-                            moved = true;
-                        }
-                    }
-                }
-                if !moved {
-                    break;
-                }
+            if self.deliver_all_messages(w) {
                 progress = true;
             }
             if !progress {
@@ -347,6 +333,76 @@ impl ClusterSys {
                 return rounds;
             }
         }
+    }
+
+    /// Delivers everything in flight (FIFO per link) until nothing is left.
+    fn deliver_all_messages(&self, w: &mut ClusterWorld) -> bool {
+        let h = self.h();
+        let mut any = false;
+        loop {
+            let mut moved = false;
+            for i in 0..h {
+                for j in 0..h {
+                    while w.next[i][j] < w.emitted[j].len() {
+                        let m = w.emitted[j][w.next[i][j]].clone();
+                        w.next[i][j] += 1;
+                        self.feed(w, i, &m);
+                        moved = true;
+                    }
+                }
+            }
+            if !moved {
+                return any;
+            }
+            any = true;
+        }
+    }
+
+    /// First slot of the window after the last window of the alphabet.
+    pub fn next_window_start(&self) -> u64 {
+        self.alpha.windows.iter().max().copied().unwrap_or(0) + alpenglow::types::SLOTS_PER_WINDOW
+    }
+
+    /// After fair completion: the window that follows has a *correct* leader (real node `leader`)
+    /// and the network is timely. The leader builds on a parent its own pool announced as ready
+    /// (the highest or the lowest one), its four blocks reach every real node in order, everything
+    /// in flight is delivered after each block, and no timeout of the window fires.
+    /// Returns the first slot of the window and the parent, or None if the stage does not apply.
+    pub fn correct_leader_window(&self, w: &mut ClusterWorld, leader: usize, highest: bool) -> Option<(u64, BlockId)> {
+        verif_capture_timeouts(true);
+        let f = self.next_window_start();
+        if self.alpha.blocks.iter().any(|(b, _)| b.slot >= f) {
+            return None;
+        }
+        let mut ready: Vec<BlockId> = w.cores[leader].pool.pool.parents_ready(Slot::new(f)).iter().cloned().collect();
+        ready.retain(|p| w.mons[leader].parent_ready.contains(&(f, p.clone())));
+        ready.sort();
+        let parent = if highest { ready.last()?.clone() } else { ready.first()?.clone() };
+        let mut prev = parent.clone();
+        for k in 0..alpenglow::types::SLOTS_PER_WINDOW {
+            let b = Blk { slot: f + k, idx: 0 };
+            let slot = Slot::new(b.slot);
+            for i in 0..self.h() {
+                if w.cores[i].first_shred.insert(b.slot) {
+                    w.cores[i].blockstore_event(BlockstoreEvent::FirstShred(slot));
+                }
+                w.blocks_known.insert(blk_id(b), prev.clone());
+                w.mons[i].blocks_known.insert(blk_id(b), prev.clone());
+                w.cores[i].blockstore_event(BlockstoreEvent::Block { slot, block_info: BlockInfo::verif_new(blk_hash(b), prev.clone()) });
+                self.collect(w, i);
+                let o = w.cores[i].pool.add_block(blk_id(b), prev.clone());
+                w.fins[i].extend(o.fins);
+                w.repair_requested[i].extend(o.repairs);
+                for e in o.events {
+                    w.mons[i].observe_pool_event(&e);
+                    w.cores[i].q.push_back(e);
+                }
+                self.settle(w, i);
+            }
+            self.deliver_all_messages(w);
+            prev = blk_id(b);
+        }
+        Some((f, parent))
     }
 
     fn descends(&self, w: &ClusterWorld, mut child: Blk, anc: Blk) -> bool {
@@ -725,6 +781,9 @@ pub struct LiveSys {
     pub max_rounds: std::sync::atomic::AtomicUsize,
     /// outcomes of completions: (which slots ended notarized / skipped / both)
     pub shapes: std::sync::Mutex<BTreeSet<String>>,
+    /// correct-leader windows run after fair completions
+    pub windows_run: std::sync::atomic::AtomicUsize,
+    pub window_done: std::sync::Mutex<std::collections::HashSet<u64>>,
 }
 
 pub struct LiveWorld {
@@ -734,7 +793,7 @@ pub struct LiveWorld {
 
 impl LiveSys {
     pub fn new(inner: ClusterSys) -> Self {
-        Self { inner, safety: false, own_votes: false, done: Default::default(), completions: Default::default(), max_rounds: Default::default(), shapes: Default::default() }
+        Self { inner, safety: false, own_votes: false, done: Default::default(), completions: Default::default(), max_rounds: Default::default(), shapes: Default::default(), windows_run: Default::default(), window_done: Default::default() }
     }
 
     /// Agreement on the completed world: observers over everything really signed, plus the real
@@ -763,6 +822,38 @@ impl LiveSys {
         for (s, b) in per_slot {
             if s > 0 && b.len() > 1 {
                 out.push("C01:two-blocks-finalized-in-one-slot".to_string(), format!("after fair completion the real nodes finalized {} different blocks in slot {s}", b.len()));
+            }
+        }
+    }
+
+    /// The window after stabilisation (correct leader, timely network, no timeout fired): every
+    /// real node voted for every block and finalized all of them; nobody voted skip.
+    fn judge_window(&self, w: &ClusterWorld, f: u64, parent: &BlockId, leader: usize, out: &mut StepOutcome) {
+        if w.out_of_scope {
+            return;
+        }
+        let last = f + alpenglow::types::SLOTS_PER_WINDOW - 1;
+        for (n, core) in w.cores.iter().enumerate() {
+            let pool = &core.pool.pool;
+            let fin = pool.finalized_slot().inner();
+            let votes: Vec<String> = (f..=last).map(|s| format!("{s}:{:?}", w.mons[n].votes.get(&s).map(|v| v.iter().map(|r| match r { crate::nodesys::VRec::Notar(_) => "notar", crate::nodesys::VRec::NotarFb(_) => "notar-fb", crate::nodesys::VRec::Skip => "skip", crate::nodesys::VRec::SkipFb => "skip-fb", crate::nodesys::VRec::Final => "final" }).collect::<Vec<_>>()).unwrap_or_default())).collect();
+            let skipped = (f..=last).any(|s| w.mons[n].votes.get(&s).is_some_and(|v| v.iter().any(|r| matches!(r, crate::nodesys::VRec::Skip | crate::nodesys::VRec::SkipFb))));
+            if skipped {
+                out.push(
+                    "C02:skip-vote-in-timely-correct-leader-window".to_string(),
+                    format!("after stabilisation real node v{leadv} led slots {f}..={last} on the ready parent of slot {}; no timeout fired, yet node v{} voted skip: {votes:?}", parent.0, self.inner.nodes[n], leadv = self.inner.nodes[leader]),
+                );
+                return;
+            }
+            if fin < last {
+                out.push(
+                    "C02:correct-leader-window-not-finalized-after-stabilisation".to_string(),
+                    format!(
+                        "after stabilisation real node v{} led slots {f}..={last} on the ready parent of slot {} (announced to its Votor); every block reached every node in order and every message was delivered, but node v{} has finalized slot {fin} only; its votes in the window: {votes:?}",
+                        self.inner.nodes[leader], parent.0, self.inner.nodes[n]
+                    ),
+                );
+                return;
             }
         }
     }
@@ -891,6 +982,36 @@ impl Sys for LiveSys {
                     out.push("C02:fair-completion-does-not-quiesce".to_string(), "after 60 rounds of delivering everything and firing timeouts the nodes are still producing new messages".to_string());
                 } else {
                     self.judge_completed(&copy, &mut out);
+                    if !self.safety && !self.own_votes && out.violations.is_empty() && !copy.out_of_scope {
+                        // stabilisation has happened: the next window has a correct leader
+                        let leader = if timeouts_first { self.inner.nodes.len() - 1 } else { 0 };
+                        // what happens next depends on the node cores only (nothing is in flight)
+                        let key = {
+                            use std::hash::{Hash, Hasher};
+                            let mut hh = crate::common::new_hasher();
+                            for c in &copy.cores {
+                                c.digest(&mut hh);
+                            }
+                            (leader, timeouts_first).hash(&mut hh);
+                            hh.finish()
+                        };
+                        if !self.window_done.lock().unwrap().insert(key) && !crate::engine::replaying() {
+                            continue;
+                        }
+                        copy.msg_cap = 700;
+                        let r = std::panic::catch_unwind(std::panic::AssertUnwindSafe(|| self.inner.correct_leader_window(&mut copy, leader, !timeouts_first)));
+                        match r {
+                            Ok(Some((f, parent))) => {
+                                self.windows_run.fetch_add(1, std::sync::atomic::Ordering::Relaxed);
+                                self.judge_window(&copy, f, &parent, leader, &mut out);
+                            }
+                            Ok(None) => {}
+                            Err(p) => {
+                                let msg = p.downcast_ref::<String>().cloned().or_else(|| p.downcast_ref::<&str>().map(|s| s.to_string())).unwrap_or_default();
+                                out.push(format!("C02:node-panics-in-correct-leader-window:{}", crate::engine::panic_class(&msg)), format!("a node core panicked while the correct leader's blocks of the next window were delivered: {msg}"));
+                            }
+                        }
+                    }
                 }
             }
             Err(p) => {
